@@ -186,6 +186,7 @@ void c09(const Trace& t, const Analysis& A, Verdict& V) {
 	const Info& f = t.info;
 	if (!f.hasPlans || !f.head || f.bare) return;
 	const std::vector<CycleInfo> ci = walkReports(t, A);
+	const std::vector<std::pair<bool, std::vector<TaskV>>> model = planAtSteps(t, A);   // the plan as the edit history defines it
 	for (size_t wi = 0; wi < A.wins.size(); ++wi) {
 		const Win& w = A.wins[wi];
 		if (A.ann[w.b].dead) continue;
@@ -211,6 +212,7 @@ void c09(const Trace& t, const Analysis& A, Verdict& V) {
 			} else {
 				if (c.atPlanStep.succS == 0 && !c.succCalled) V.add(9, p.outcomeEv, "planSucceeded delivered in a cycle without any outstanding success report");
 				if (!p.pre.empty()) V.add(9, p.outcomeEv, F("planSucceeded delivered while tasks remain: %s", seqStr(p.pre).c_str()));
+				else if (wi < model.size() && model[wi].first && !model[wi].second.empty()) V.add(9, p.outcomeEv, F("planSucceeded delivered while tasks that were appended and neither removed nor fired remain: %s (the plan iterates as empty)", seqStr(model[wi].second).c_str()));
 			}
 			// after the callback returns the plan is empty
 			bool passedOwn = false;
